@@ -51,8 +51,14 @@ func runC13(w *World, r *Report, tier string) {
 			r.Undecided("R1", k, w.ipos(cc), "the result of connect() is not tested against nil exactly once")
 			continue
 		}
-		isRecv := func(in ssa.Instruction) bool { _, g := in.(*ssa.Go); return g && w.callKey(asCall(in)) == "xmpp.Client.recv" }
-		isKA := func(in ssa.Instruction) bool { _, g := in.(*ssa.Go); return g && w.callKey(asCall(in)) == "xmpp.keepalive" }
+		isRecv := func(in ssa.Instruction) bool {
+			_, g := in.(*ssa.Go)
+			return g && w.callKey(asCall(in)) == "xmpp.Client.recv"
+		}
+		isKA := func(in ssa.Instruction) bool {
+			_, g := in.(*ssa.Go)
+			return g && w.callKey(asCall(in)) == "xmpp.keepalive"
+		}
 		bad := ""
 		nStart, nErr := 0, 0
 		err := walkPaths(starts[0], nil, nil, 20000, func(path []ssa.Instruction, end pathEnd) {
